@@ -1,3 +1,655 @@
-pub fn main(_ctx: &vcore::Ctx) {
-    std::process::exit(2)
+//! C33: every communication status change reaches exactly one listener - the most specific level
+//! (entity, publisher/subscriber, participant) whose mask enables the status.
+//!
+//! Participant A holds writer W under publisher P; participant B holds reader R under subscriber S.
+//! Each of the six entities gets a recording listener or none, with a generated status mask. The
+//! scenario raises every status the implementation can raise a known number of times: one match,
+//! samples delivered one at a time, one resource-limit rejection, one incompatible remote endpoint per
+//! side (extra endpoints W' and R' without own listeners, whose statuses can only go to the
+//! participant level), deadline misses, and an un-match. Callbacks are logged with their level, the
+//! status and the entity they name.
+
+use std::collections::BTreeMap;
+
+use dust_dds::infrastructure::{
+    qos::{DataReaderQos, DataWriterQos, QosKind},
+    qos_policy::{
+        DeadlineQosPolicy, HistoryQosPolicy, HistoryQosPolicyKind, Length, OwnershipQosPolicy,
+        OwnershipQosPolicyKind, ReliabilityQosPolicy, ReliabilityQosPolicyKind,
+        ResourceLimitsQosPolicy,
+    },
+    sample_info::{ANY_INSTANCE_STATE, ANY_SAMPLE_STATE, ANY_VIEW_STATE},
+    status::NO_STATUS,
+    time::DurationKind,
+};
+use proptest::prelude::*;
+use serde::{Deserialize, Serialize};
+use serde_json::json;
+use sim::{
+    case::{CaseResult, apply_abort, run_forked, sim_stats, to_outcome},
+    exec,
+    props::SHARDS,
+    types::KeyedData,
+    util::dk_ms,
+};
+use vcore::{Ctx, Failure, Known, Meta, Report, fork::Limits};
+
+use crate::common::{Call, Log, Rec, St, choose_verdict, factory, mask_kinds};
+
+const READER_ST: [St; 6] = [St::DataAvailable, St::DataOnReaders, St::SubscriptionMatched, St::RequestedIncompatibleQos, St::RequestedDeadlineMissed, St::SampleRejected];
+const WRITER_ST: [St; 3] = [St::PublicationMatched, St::OfferedIncompatibleQos, St::OfferedDeadlineMissed];
+
+fn bits(v: &[St]) -> u16 {
+    v.iter().map(|s| s.bit()).sum()
+}
+
+#[derive(Clone, Debug, Serialize, Deserialize)]
+pub struct Side {
+    /// listener installed at [entity, publisher/subscriber, participant]
+    pub present: [bool; 3],
+    /// status masks (bits over `St`) at the three levels
+    pub masks: [u16; 3],
+}
+
+#[derive(Clone, Debug, Serialize, Deserialize)]
+pub struct C33Case {
+    pub reader: Side,
+    pub writer: Side,
+    /// W offers and R requests a 200 ms deadline; the scenario ends with a gap of 2.5 periods
+    pub deadline: bool,
+    /// samples delivered (and taken) one at a time
+    pub samples: u8,
+    /// fill R (max_samples 2) and send one sample more
+    pub reject: bool,
+    /// create W' and R' (EXCLUSIVE ownership: incompatible with R and W, compatible with each other)
+    pub incompatible: bool,
+    /// delete R at the end: W's PUBLICATION_MATCHED changes (current_count goes down)
+    pub unmatch: bool,
+    /// a second topic name used with two different types (writer in A, reader in B): INCONSISTENT_TOPIC on
+    /// both topics; the topics get a listener / a mask enabling the status per these flags, the participant
+    /// level is the participants' listeners (bit InconsistentTopic of masks[2])
+    pub inconsistent_topic: Option<(bool, bool)>,
+}
+
+/// Enumerated configurations: listener presence (3 bits) x "level enables every status" (3 bits) x
+/// DATA_ON_READERS on the subscriber, identical on both sides, all events on.
+fn enumerated(i: u32) -> C33Case {
+    let p = i & 7;
+    let m = (i >> 3) & 7;
+    let dor = (i >> 6) & 1 == 1;
+    let present = [p & 1 != 0, p & 2 != 0, p & 4 != 0];
+    let rm = bits(&READER_ST) & !St::DataOnReaders.bit();
+    let wm = bits(&WRITER_ST);
+    let lvl = |l: u32, all: u16| if m & (1 << l) != 0 { all } else { 0 };
+    C33Case {
+        reader: Side { present, masks: [lvl(0, rm), lvl(1, rm) | if dor { St::DataOnReaders.bit() } else { 0 }, lvl(2, rm)] },
+        writer: Side { present, masks: [lvl(0, wm), lvl(1, wm), lvl(2, wm)] },
+        deadline: true,
+        samples: 2,
+        reject: true,
+        incompatible: true,
+        unmatch: true,
+        inconsistent_topic: Some((present[0], m & 1 != 0)),
+    }
+    .with_participant_topic_bits(m & 4 != 0)
+}
+
+impl C33Case {
+    fn with_participant_topic_bits(mut self, on: bool) -> Self {
+        if on {
+            self.reader.masks[2] |= St::InconsistentTopic.bit();
+            self.writer.masks[2] |= St::InconsistentTopic.bit();
+        }
+        self
+    }
+}
+const ENUMERATED: u32 = 128;
+
+fn side(valid: u16) -> impl Strategy<Value = Side> {
+    let mask = move || prop_oneof![3 => any::<u16>().prop_map(move |m| m & valid), 1 => Just(valid), 1 => Just(0u16)];
+    (any::<[bool; 3]>(), mask(), mask(), mask(), prop::bool::weighted(0.7)).prop_map(|(mut present, a, b, c, all_present)| {
+        if all_present {
+            present = [true; 3];
+        }
+        Side { present, masks: [a, b, c] }
+    })
+}
+
+pub fn strategy() -> BoxedStrategy<C33Case> {
+    (
+        side(bits(&READER_ST)),
+        side(bits(&WRITER_ST)),
+        any::<bool>(),
+        1u8..=3,
+        any::<bool>(),
+        any::<bool>(),
+        any::<bool>(),
+        prop::option::weighted(0.3, (any::<bool>(), any::<bool>())),
+        any::<[bool; 2]>(),
+    )
+        .prop_map(|(mut reader, mut writer, deadline, samples, reject, incompatible, unmatch, inconsistent_topic, pbits)| {
+            if pbits[0] {
+                reader.masks[2] |= St::InconsistentTopic.bit();
+            }
+            if pbits[1] {
+                writer.masks[2] |= St::InconsistentTopic.bit();
+            }
+            // DATA_ON_READERS only exists on the subscriber listener in this API
+            reader.masks[0] &= !St::DataOnReaders.bit();
+            reader.masks[2] &= !St::DataOnReaders.bit();
+            C33Case { reader, writer, deadline, samples, reject, incompatible, unmatch, inconsistent_topic }
+        })
+        .boxed()
+}
+
+// ------------------------------------------------------------------------------------------
+
+#[derive(Clone, Debug, Default, Serialize, Deserialize)]
+pub struct Hist {
+    pub setup_error: Option<String>,
+    pub calls: Vec<Call>,
+    /// instance handles: R, S, W, R', W'
+    pub h_r: [u8; 16],
+    pub h_s: [u8; 16],
+    pub h_w: [u8; 16],
+    pub h_r2: Option<[u8; 16]>,
+    pub h_w2: Option<[u8; 16]>,
+    /// the two topics of the inconsistent pair (A's, B's)
+    pub h_topics: Option<([u8; 16], [u8; 16])>,
+    /// ground truth from the status getters at the end
+    pub w_pub_matched_total: i32,
+    pub w_deadline_total: i32,
+    pub stored: u32,
+    pub rejected: u32,
+}
+
+fn opt(present: bool, level: u8, log: &Log) -> Option<Rec> {
+    present.then(|| Rec::new(level, log))
+}
+
+async fn scenario(c: C33Case) -> Hist {
+    let mut h = Hist::default();
+    crate::common::limit_steps();
+    let f = factory();
+    let log: Log = Default::default();
+    let deadline = DeadlineQosPolicy { period: if c.deadline { dk_ms(200) } else { DurationKind::Infinite } };
+    let keep_all = HistoryQosPolicy { kind: HistoryQosPolicyKind::KeepAll };
+    // ---- writer side
+    let pa = f.create_participant(0, QosKind::Default, opt(c.writer.present[2], 2, &log), &mask_kinds(c.writer.masks[2])).await.unwrap();
+    let ta = pa.create_topic::<KeyedData>("T", "KeyedData", QosKind::Default, None::<Rec>, NO_STATUS).await.unwrap();
+    let publ = pa.create_publisher(QosKind::Default, opt(c.writer.present[1], 1, &log), &mask_kinds(c.writer.masks[1])).await.unwrap();
+    let publ2 = pa.create_publisher(QosKind::Default, None::<Rec>, NO_STATUS).await.unwrap();
+    let wq = DataWriterQos {
+        reliability: ReliabilityQosPolicy { kind: ReliabilityQosPolicyKind::Reliable, max_blocking_time: dk_ms(100) },
+        history: keep_all.clone(),
+        deadline: deadline.clone(),
+        ..Default::default()
+    };
+    let w = match publ
+        .create_datawriter::<KeyedData>(&ta, QosKind::Specific(wq.clone()), opt(c.writer.present[0], 0, &log), &mask_kinds(c.writer.masks[0]))
+        .await
+    {
+        Ok(w) => w,
+        Err(e) => {
+            h.setup_error = Some(format!("create_datawriter: {e:?}"));
+            return h;
+        }
+    };
+    // ---- reader side
+    let pb = f.create_participant(0, QosKind::Default, opt(c.reader.present[2], 2, &log), &mask_kinds(c.reader.masks[2])).await.unwrap();
+    let tb = pb.create_topic::<KeyedData>("T", "KeyedData", QosKind::Default, None::<Rec>, NO_STATUS).await.unwrap();
+    let sub = pb.create_subscriber(QosKind::Default, opt(c.reader.present[1], 1, &log), &mask_kinds(c.reader.masks[1])).await.unwrap();
+    let sub2 = pb.create_subscriber(QosKind::Default, None::<Rec>, NO_STATUS).await.unwrap();
+    let rq = DataReaderQos {
+        reliability: ReliabilityQosPolicy { kind: ReliabilityQosPolicyKind::BestEffort, max_blocking_time: dk_ms(100) },
+        history: keep_all.clone(),
+        resource_limits: ResourceLimitsQosPolicy {
+            max_samples: Length::Limited(2),
+            max_instances: Length::Unlimited,
+            max_samples_per_instance: Length::Limited(2),
+        },
+        deadline: deadline.clone(),
+        ..Default::default()
+    };
+    let r = match sub
+        .create_datareader::<KeyedData>(&tb, QosKind::Specific(rq.clone()), opt(c.reader.present[0], 0, &log), &mask_kinds(c.reader.masks[0]))
+        .await
+    {
+        Ok(r) => r,
+        Err(e) => {
+            h.setup_error = Some(format!("create_datareader: {e:?}"));
+            return h;
+        }
+    };
+    h.h_r = r.get_instance_handle().into();
+    h.h_s = sub.get_instance_handle().into();
+    h.h_w = w.get_instance_handle().into();
+    // discovery and the one match of W with R
+    exec::sleep_ms(1500).await;
+    let mut seq = 0u32;
+    let mut write = async |h: &mut Hist| -> bool {
+        seq += 1;
+        match w.write(KeyedData { id: 0, seq, blob: vec![] }, None).await {
+            Ok(()) => true,
+            Err(e) => {
+                h.setup_error = Some(format!("write: {e:?}"));
+                false
+            }
+        }
+    };
+    // ---- samples delivered one at a time
+    for _ in 0..c.samples {
+        if !write(&mut h).await {
+            return h;
+        }
+        h.stored += 1;
+        exec::sleep_ms(5).await;
+        let _ = r.take(10, ANY_SAMPLE_STATE, ANY_VIEW_STATE, ANY_INSTANCE_STATE).await;
+        exec::sleep_ms(5).await;
+    }
+    // ---- one rejection: two samples fill the reader, the third is rejected
+    if c.reject {
+        for k in 0..3 {
+            if !write(&mut h).await {
+                return h;
+            }
+            if k < 2 {
+                h.stored += 1;
+            } else {
+                h.rejected += 1;
+            }
+            exec::sleep_ms(5).await;
+        }
+        let _ = r.take(10, ANY_SAMPLE_STATE, ANY_VIEW_STATE, ANY_INSTANCE_STATE).await;
+        exec::sleep_ms(5).await;
+    }
+    // ---- incompatible endpoints
+    let mut extra = None;
+    if c.incompatible {
+        let excl = OwnershipQosPolicy { kind: OwnershipQosPolicyKind::Exclusive };
+        let w2q = DataWriterQos { ownership: excl.clone(), ..wq.clone() };
+        let r2q = DataReaderQos { ownership: excl, resource_limits: Default::default(), deadline: DeadlineQosPolicy { period: DurationKind::Infinite }, ..rq.clone() };
+        let w2 = publ2.create_datawriter::<KeyedData>(&ta, QosKind::Specific(w2q), None::<Rec>, NO_STATUS).await.unwrap();
+        exec::sleep_ms(100).await;
+        let r2 = sub2.create_datareader::<KeyedData>(&tb, QosKind::Specific(r2q), None::<Rec>, NO_STATUS).await.unwrap();
+        h.h_w2 = Some(w2.get_instance_handle().into());
+        h.h_r2 = Some(r2.get_instance_handle().into());
+        exec::sleep_ms(200).await;
+        extra = Some((w2, r2));
+    }
+    // ---- deadline: one more sample, then 2.5 periods of silence
+    if c.deadline {
+        if !write(&mut h).await {
+            return h;
+        }
+        h.stored += 1;
+        exec::sleep_ms(5).await;
+        let _ = r.take(10, ANY_SAMPLE_STATE, ANY_VIEW_STATE, ANY_INSTANCE_STATE).await;
+        exec::sleep_ms(500).await;
+    }
+    // ---- un-match
+    if c.unmatch {
+        if let Err(e) = sub.delete_datareader(&r).await {
+            h.setup_error = Some(format!("delete_datareader: {e:?}"));
+            return h;
+        }
+        exec::sleep_ms(200).await;
+    }
+    // ---- one topic name, two types
+    let mut keep_topic = None;
+    if let Some((present, enabled)) = c.inconsistent_topic {
+        let mask = if enabled { vec![dust_dds::infrastructure::status::StatusKind::InconsistentTopic] } else { vec![] };
+        let ta2 = pa.create_topic::<KeyedData>("T2", "KeyedData", QosKind::Default, opt(present, 0, &log), &mask).await.unwrap();
+        let tb2 = pb.create_topic::<sim::types::Unkeyed>("T2", "Unkeyed", QosKind::Default, opt(present, 0, &log), &mask).await.unwrap();
+        let w3 = publ2.create_datawriter::<KeyedData>(&ta2, QosKind::Default, None::<Rec>, NO_STATUS).await.unwrap();
+        let r3 = sub2.create_datareader::<sim::types::Unkeyed>(&tb2, QosKind::Default, None::<Rec>, NO_STATUS).await.unwrap();
+        h.h_topics = Some((ta2.get_instance_handle().into(), tb2.get_instance_handle().into()));
+        keep_topic = Some((ta2, tb2, w3, r3));
+        // type lookup and the first detections
+        exec::sleep_ms(400).await;
+    }
+    exec::sleep_ms(20).await;
+    // ground truth from the getters (after everything was dispatched)
+    h.w_pub_matched_total = w.get_publication_matched_status().await.map(|s| s.total_count).unwrap_or(-1);
+    h.w_deadline_total = w.get_offered_deadline_missed_status().await.map(|s| s.total_count).unwrap_or(-1);
+    exec::sleep_ms(1).await;
+    h.calls = log.lock().unwrap().clone();
+    drop((extra, keep_topic, pa, pb, ta, tb, publ, publ2, sub, sub2));
+    h
+}
+
+#[derive(Clone, Debug)]
+enum Expect {
+    /// exactly this many status changes
+    Exactly(u32),
+    /// as many as the cumulative counts carried by the callbacks say (>= min), optionally pinned by a getter
+    Counted { min: u32, pinned: Option<u32> },
+}
+
+const LEVEL: [&str; 3] = ["entity", "group", "participant"];
+/// level names used in the expectation part of signatures: the two outer levels are one shape
+const WANT: [&str; 3] = ["entity", "beyond-entity", "beyond-entity"];
+
+fn oracle(c: &C33Case, h: &Hist, res: &mut CaseResult) {
+    if let Some(e) = &h.setup_error {
+        res.harness_error = Some(e.clone());
+        return;
+    }
+    if h.w_pub_matched_total != 1 {
+        res.harness_error = Some(format!("ground truth: W's publication_matched.total_count is {} (one compatible reader exists)", h.w_pub_matched_total));
+        return;
+    }
+    // calls by (entity, status)
+    let mut by: BTreeMap<([u8; 16], St), Vec<&Call>> = BTreeMap::new();
+    for call in &h.calls {
+        by.entry((call.entity, call.status)).or_default().push(call);
+    }
+    let chain_extra = |s: &Side| Side { present: [false, false, s.present[2]], masks: [0, 0, s.masks[2]] };
+    let r_extra = chain_extra(&c.reader);
+    let w_extra = chain_extra(&c.writer);
+    // expected status changes per (entity, status)
+    let mut exp: Vec<(&str, [u8; 16], &Side, St, Expect)> = vec![];
+    exp.push(("R", h.h_r, &c.reader, St::SubscriptionMatched, Expect::Exactly(1)));
+    exp.push(("W", h.h_w, &c.writer, St::PublicationMatched, Expect::Exactly(1 + c.unmatch as u32)));
+    exp.push(("R", h.h_r, &c.reader, St::SampleRejected, Expect::Exactly(h.rejected)));
+    exp.push(("R", h.h_r, &c.reader, St::RequestedIncompatibleQos, Expect::Exactly(c.incompatible as u32)));
+    exp.push(("W", h.h_w, &c.writer, St::OfferedIncompatibleQos, Expect::Exactly(c.incompatible as u32)));
+    if c.deadline {
+        exp.push(("W", h.h_w, &c.writer, St::OfferedDeadlineMissed, Expect::Counted { min: 2, pinned: Some(h.w_deadline_total.max(0) as u32) }));
+        exp.push(("R", h.h_r, &c.reader, St::RequestedDeadlineMissed, Expect::Counted { min: 1, pinned: None }));
+    } else {
+        exp.push(("W", h.h_w, &c.writer, St::OfferedDeadlineMissed, Expect::Exactly(0)));
+        exp.push(("R", h.h_r, &c.reader, St::RequestedDeadlineMissed, Expect::Exactly(0)));
+    }
+    if let (Some(r2), Some(w2)) = (h.h_r2, h.h_w2) {
+        exp.push(("R'", r2, &r_extra, St::SubscriptionMatched, Expect::Exactly(1)));
+        exp.push(("R'", r2, &r_extra, St::RequestedIncompatibleQos, Expect::Exactly(1)));
+        exp.push(("W'", w2, &w_extra, St::PublicationMatched, Expect::Exactly(1)));
+        exp.push(("W'", w2, &w_extra, St::OfferedIncompatibleQos, Expect::Exactly(1)));
+    }
+    let topic_sides: Option<(Side, Side)> = c.inconsistent_topic.map(|(present, enabled)| {
+        let it = St::InconsistentTopic.bit();
+        let mk = |s: &Side| Side { present: [present, false, s.present[2]], masks: [if enabled { it } else { 0 }, 0, s.masks[2] & it] };
+        (mk(&c.writer), mk(&c.reader))
+    });
+    if let (Some((ha, hb)), Some((sa, sb))) = (h.h_topics, &topic_sides) {
+        exp.push(("topic T2 in A", ha, sa, St::InconsistentTopic, Expect::Counted { min: 1, pinned: None }));
+        exp.push(("topic T2 in B", hb, sb, St::InconsistentTopic, Expect::Counted { min: 1, pinned: None }));
+    }
+    let mut fails: Vec<(String, String)> = vec![];
+    let mut multi_level = false;
+    let judge = |name: &str, label: &str, st: St, side: &Side, calls: &[&Call], expect: &Expect, effective_masks: [bool; 3], fails: &mut Vec<(String, String)>, res: &mut CaseResult| {
+        let enabled: Vec<usize> = (0..3).filter(|l| effective_masks[*l]).collect();
+        let per_level: Vec<usize> = (0..3).map(|l| calls.iter().filter(|c| c.level as usize == l).count()).collect();
+        let total_calls: usize = per_level.iter().sum();
+        let n = match expect {
+            Expect::Exactly(n) => *n as usize,
+            Expect::Counted { min, pinned } => {
+                let last = calls.iter().map(|c| c.total).max().unwrap_or(0).max(0) as usize;
+                let n = pinned.map(|p| p as usize).unwrap_or(last.max(total_calls));
+                if n < *min as usize && enabled.iter().any(|l| side.present[*l]) && pinned.is_none() {
+                    *min as usize
+                } else {
+                    n
+                }
+            }
+        };
+        // where the n changes must go
+        let first = enabled.first().copied();
+        let mut accepted: Vec<(Option<usize>, &str)> = vec![];
+        match first {
+            None => accepted.push((None, "expected-none")),
+            Some(l) if side.present[l] => accepted.push((Some(l), "expected")),
+            Some(l) => {
+                // the most specific enabled level has a nil listener: a nil listener behaves as a no-op listener
+                // (DDS 1.4 2.2.2.1.1.3), so nothing is called - or the search moves on (2.2.4.2.3); both accepted
+                res.class("nil_listener_with_enabling_mask");
+                accepted.push((None, "expected-none"));
+                if let Some(l2) = enabled.iter().copied().find(|x| *x > l && side.present[*x]) {
+                    accepted.push((Some(l2), "expected"));
+                }
+            }
+        }
+        if n == 0 {
+            accepted = vec![(None, "expected-none")];
+        }
+        let ok = accepted.iter().any(|(lvl, _)| match lvl {
+            None => total_calls == 0,
+            Some(l) => per_level[*l] == n && total_calls == n,
+        });
+        if !ok {
+            let want = match accepted[0].0 {
+                None => "expected-none".to_string(),
+                Some(l) => format!("expected-at-{}", WANT[l]),
+            };
+            let got = if total_calls == 0 {
+                "none-called".to_string()
+            } else {
+                let lv: Vec<&str> = (0..3).filter(|l| per_level[*l] > 0).map(|l| LEVEL[l]).collect();
+                let right_level_only = accepted.iter().any(|(l, _)| l.map(|l| per_level[l] == total_calls).unwrap_or(false));
+                if right_level_only {
+                    if total_calls > n { "too-many-calls".to_string() } else { "too-few-calls".to_string() }
+                } else {
+                    format!("called-at-{}", lv.join("+"))
+                }
+            };
+            fails.push((
+                format!("C33:{}:{}:{}", label, want, got),
+                format!(
+                    "{} of {name}: {} status change(s) raised; listeners present at [entity, pub/sub, participant] = {:?}, masks enabling it = {:?}; callbacks per level = {:?}",
+                    label, n, side.present, effective_masks, per_level
+                ),
+            ));
+        }
+        // cumulative counts carried by the callbacks: 1, 2, 3, ... (no change lost or duplicated)
+        if matches!(expect, Expect::Counted { .. }) {
+            let mut last = 0;
+            for call in calls {
+                if call.total != last + 1 {
+                    fails.push((
+                        format!("C33:{}:count-sequence", label),
+                        format!("{} of {name}: a callback carries total_count {} after {}", st.name(), call.total, last),
+                    ));
+                    break;
+                }
+                last = call.total;
+            }
+        }
+        enabled.len() >= 2 && n > 0
+    };
+    for (name, handle, side, st, expect) in &exp {
+        let calls = by.get(&(*handle, *st)).cloned().unwrap_or_default();
+        let eff = [side.masks[0] & st.bit() != 0, side.masks[1] & st.bit() != 0, side.masks[2] & st.bit() != 0];
+        if *st == St::PublicationMatched && *handle == h.h_w && c.unmatch {
+            // the match and the un-match are judged separately (an un-match has current_count_change < 0)
+            let (gone, found): (Vec<&Call>, Vec<&Call>) = calls.iter().partition(|c| c.current_change < 0);
+            multi_level |= judge(name, st.name(), *st, side, &found, &Expect::Exactly(1), eff, &mut fails, res);
+            judge(name, "PublicationMatched-unmatch", *st, side, &gone, &Expect::Exactly(1), eff, &mut fails, res);
+            continue;
+        }
+        multi_level |= judge(name, st.name(), *st, side, &calls, expect, eff, &mut fails, res);
+    }
+    // ---- new data: DATA_ON_READERS on the subscriber when enabled there, DATA_AVAILABLE otherwise
+    {
+        let n = h.stored;
+        let dor_calls = by.get(&(h.h_s, St::DataOnReaders)).cloned().unwrap_or_default();
+        let da_calls = by.get(&(h.h_r, St::DataAvailable)).cloned().unwrap_or_default();
+        let dor_enabled = c.reader.masks[1] & St::DataOnReaders.bit() != 0;
+        let da_eff = [
+            c.reader.masks[0] & St::DataAvailable.bit() != 0,
+            c.reader.masks[1] & St::DataAvailable.bit() != 0,
+            c.reader.masks[2] & St::DataAvailable.bit() != 0,
+        ];
+        if dor_enabled && da_eff.iter().any(|x| *x) {
+            multi_level = true;
+            res.class("data_on_readers_and_data_available_enabled");
+        }
+        if dor_enabled && c.reader.present[1] {
+            // DATA_ON_READERS takes precedence: n callbacks on the subscriber, no on_data_available at all
+            if dor_calls.len() != n as usize || dor_calls.iter().any(|c| c.level != 1) {
+                fails.push((
+                    format!("C33:DataOnReaders:expected-at-beyond-entity:{}", if dor_calls.is_empty() { "none-called" } else if dor_calls.len() > n as usize { "too-many-calls" } else { "too-few-calls" }),
+                    format!("{} samples were stored one at a time; the subscriber's listener enables DATA_ON_READERS but on_data_on_readers was called {} times", n, dor_calls.len()),
+                ));
+            }
+            if !da_calls.is_empty() {
+                fails.push((
+                    "C33:DataAvailable:expected-none:called-although-data-on-readers-taken".into(),
+                    format!("the subscriber's listener enables DATA_ON_READERS, yet on_data_available was also called {} times (levels {:?})", da_calls.len(), da_calls.iter().map(|c| c.level).collect::<Vec<_>>()),
+                ));
+            }
+        } else if dor_enabled {
+            // nil subscriber listener with DATA_ON_READERS in its mask: nothing, or the DATA_AVAILABLE search
+            res.class("nil_listener_with_enabling_mask");
+            if !dor_calls.is_empty() {
+                fails.push(("C33:DataOnReaders:expected-none:called-without-listener".into(), "on_data_on_readers was called although the subscriber has no listener".into()));
+            }
+            if !da_calls.is_empty() {
+                multi_level |= judge("R", "DataAvailable", St::DataAvailable, &c.reader, &da_calls, &Expect::Exactly(n), da_eff, &mut fails, res);
+            }
+        } else {
+            if !dor_calls.is_empty() {
+                fails.push((
+                    "C33:DataOnReaders:expected-none:called-at-group".into(),
+                    format!("on_data_on_readers was called {} times although the subscriber's mask does not enable DATA_ON_READERS", dor_calls.len()),
+                ));
+            }
+            multi_level |= judge("R", "DataAvailable", St::DataAvailable, &c.reader, &da_calls, &Expect::Exactly(n), da_eff, &mut fails, res);
+        }
+    }
+    // ---- callbacks naming an entity / status the scenario never raised
+    for ((ent, st), calls) in &by {
+        let known = exp.iter().any(|e| e.1 == *ent && e.3 == *st)
+            || (*ent == h.h_s && *st == St::DataOnReaders)
+            || (*ent == h.h_r && *st == St::DataAvailable);
+        if !known {
+            // data reaching R' (it matches W') is not part of the model: W' never writes
+            fails.push((
+                format!("C33:{}:unexpected-entity", st.name()),
+                format!("{} callback(s) for {} naming an entity for which the scenario raises no such status (levels {:?})", calls.len(), st.name(), calls.iter().map(|c| c.level).collect::<Vec<_>>()),
+            ));
+        }
+    }
+    // ---- classes
+    for (side, tag) in [(&c.reader, "reader_side"), (&c.writer, "writer_side")] {
+        let n = side.present.iter().filter(|x| **x).count();
+        res.class(format!("{tag}_listeners:{n}"));
+    }
+    if c.deadline {
+        res.class("deadline");
+    }
+    if c.incompatible {
+        res.class("incompatible_endpoints");
+    }
+    if c.unmatch {
+        res.class("unmatch");
+    }
+    if c.reject {
+        res.class("rejection");
+    }
+    if c.inconsistent_topic.is_some() {
+        res.class("inconsistent_topic");
+    }
+    if multi_level {
+        res.class("status_enabled_at_two_or_more_levels");
+    }
+    res.nontrivial = multi_level;
+    res.info = json!({
+        "callbacks": h.calls.len(),
+        "stored": h.stored, "rejected": h.rejected,
+        "w_deadline_total": h.w_deadline_total,
+        "per_status": by.iter().map(|((_, st), v)| format!("{}:{:?}", st.name(), v.iter().map(|c| c.level).collect::<Vec<_>>())).collect::<Vec<_>>(),
+    });
+    choose_verdict("C33", res, fails);
+}
+
+pub fn eval(case: &C33Case) -> CaseResult {
+    let mut res = CaseResult::default();
+    match exec::run(scenario(case.clone())) {
+        Ok(h) => oracle(case, &h, &mut res),
+        Err(a) => apply_abort("C33", &mut res, a),
+    }
+    res.sim = sim_stats();
+    res
+}
+
+pub fn main(ctx: &Ctx) {
+    let limits = Limits { cpu_s: 20, wall_s: 120, as_bytes: 4 << 30 };
+    let meta = Meta {
+        rule: "listener present/absent x status mask at the three levels (entity, publisher/subscriber, participant) on the writer side and on the reader side; events: 1 match, 1-3 samples delivered one at a time, 1 rejection, 1 incompatible endpoint per side (extra endpoints without own listeners), deadline misses, 1 un-match; part 1 enumerates all 2^6 presence x mask configurations (same for every status) x DATA_ON_READERS on/off = 128 scenarios, part 2 draws independent random masks per status; non-trivial = some raised status is enabled at two or more levels (or DATA_ON_READERS together with DATA_AVAILABLE); distinct = hash of the case",
+        assumptions: &[
+            "the number of status changes is known from the scenario (1 match, k samples, 1 rejection, 1 incompatible endpoint, 1 un-match); deadline-missed changes are counted through the cumulative total_count carried by the callbacks (offered side pinned by get_offered_deadline_missed_status)",
+            "a level whose mask enables the status but whose listener is nil: either no callback at all (nil listener = no-op listener, DDS 1.4 2.2.2.1.1.3) or the next enabled level with a listener is accepted",
+            "DATA_ON_READERS exists only on the subscriber listener in this API; the participant-level DATA_ON_READERS bit is not generated",
+            "Timer::delay(0) takes 1 ns of virtual time in this engine (see sim_status/src/common.rs)",
+        ],
+        nontrivial_floor: 100,
+    };
+    // ---- replay
+    if let Some(path) = &ctx.replay {
+        let v = vcore::load_replay(path);
+        let case: C33Case = serde_json::from_value(v).unwrap_or_else(|e| {
+            eprintln!("replay file does not hold a C33 case: {e}");
+            std::process::exit(2)
+        });
+        let r = run_forked("C33", limits, || eval(&case));
+        println!("replay C33: {}", serde_json::to_string_pretty(&r).unwrap());
+        let mut report = Report::default();
+        report.stats.evaluations = 1;
+        if let Some(hh) = r.harness_error {
+            report.inconclusive.push(hh);
+        } else if let Some((signature, what)) = r.verdict {
+            report.failures.push(Failure { signature, what, case: serde_json::to_value(&case).unwrap(), shrunk_from: None, shrunk_to: None });
+        }
+        vcore::finish(ctx, meta, report);
+    }
+    let random_total: u64 = ctx.pick(900, 20_000);
+    let report = vcore::run_sharded(ctx, SHARDS, |ctx| {
+        let known = Known::load(&ctx.id);
+        let mut report = Report::default();
+        // ---- part 1: enumeration (split over the shards)
+        let (k, n) = (ctx.shard_index() as u32, ctx.shard_count() as u32);
+        let mut enum_failures: BTreeMap<String, Failure> = BTreeMap::new();
+        for i in (0..ENUMERATED).filter(|i| i % n == k) {
+            let case = enumerated(i);
+            let r = run_forked("C33", limits, || eval(&case));
+            let js = serde_json::to_value(&case).unwrap();
+            let key = vcore::hash_json(&js);
+            let o = to_outcome(r, key, || js.clone());
+            report.stats.case(o.key, o.nontrivial, &o.classes);
+            report.stats.class("enumerated");
+            if let Some((sig, what)) = o.verdict {
+                if known.matches(&sig) {
+                    *report.stats.excluded_known.entry(sig).or_insert(0) += 1;
+                } else {
+                    enum_failures.entry(sig.clone()).or_insert(Failure { signature: sig, what, case: js, shrunk_from: None, shrunk_to: None });
+                }
+            }
+        }
+        report.failures.extend(enum_failures.into_values());
+        report.stats.extra.insert("enumerated_configurations".into(), json!(ENUMERATED));
+        // ---- part 2: random masks per status
+        let cases = ctx.share(random_total) as u32;
+        let strat = strategy();
+        let fail = vcore::pt::run_cases(
+            cases,
+            ctx.rng_seed("cases"),
+            200,
+            &strat,
+            &mut report.stats,
+            &known,
+            |case| {
+                let r = run_forked("C33", limits, || eval(case));
+                let js = serde_json::to_value(case).unwrap();
+                let key = vcore::hash_json(&js);
+                to_outcome(r, key, || js)
+            },
+            |case| serde_json::to_value(case).unwrap(),
+        );
+        if let Some(f) = fail {
+            report.failures.push(f);
+        }
+        report
+    });
+    vcore::finish(ctx, meta, report)
 }
